@@ -6,6 +6,8 @@
 // nothing.  mode=throw (C20): a throwing callback is swallowed.
 #include "common.h"
 
+#include <mutex>
+
 #include <gmlc/concurrency/DelayedDestructor.hpp>
 
 #include <chrono>
@@ -34,6 +36,12 @@ struct State {
     bool throwing = false;
     bool container_alive = true;
     int reentrant_adds = 0;
+    // callback mode 5: the callback keeps a copy of the pointer it is handed (it gets a
+    // non-const shared_ptr&); the object then lives until that copy is dropped, but the
+    // container is done with it: no second callback, not queued any more
+    std::vector<std::shared_ptr<Obj>>* parked = nullptr;
+    std::mutex park_mx;
+    int parked_total = 0;
 };
 State* S;
 
@@ -144,12 +152,49 @@ struct WL {
             }
             if (ok) w->add_new(8000 + S->reentrant_adds, 0, nullptr);
         } else if (mode == 4) (void)w->dd->destroyObjects();
+        else if (mode == 5) {
+            bool ok;
+            {
+                gsim::Oracle o;
+                ok = S->parked_total < 3;
+                if (ok) {
+                    S->parked_total++;
+                    S->objs[p.get()].ext++;
+                }
+            }
+            if (ok) {
+                Ptr q = p;  // a real copy: the reference count changes
+                // handed to whoever drops it later through a real mutex (the hand-over
+                // must synchronise, as it would in a program)
+                std::lock_guard<std::mutex> g(S->park_mx);
+                S->parked->push_back(std::move(q));
+                gsim::probe("dd.callback_parked_a_copy");
+            }
+        }
         if (mode >= 2) gsim::probe("dd.callback_reentered");
         if (thr && gsim::fault_fires(gsim::F_THROW)) throw gsim::injected{70, 0};
     }
 
+    /// drop one of the copies parked by callbacks (any thread may do that)
+    bool unpark_one()
+    {
+        Ptr q;
+        {
+            std::lock_guard<std::mutex> g(S->park_mx);
+            if (S->parked->empty()) return false;
+            q = std::move(S->parked->back());
+            S->parked->pop_back();
+        }
+        {
+            gsim::Oracle o;
+            S->objs[q.get()].ext--;
+        }
+        q.reset();  // usually destroys the object: the container let go of it when it was reaped
+        return true;
+    }
     void drop_one(std::vector<Ptr>& slots, int which)
     {
+        if ((which & 1) && unpark_one()) return;
         if (slots.empty()) return;
         size_t idx = (size_t)which % slots.size();
         Ptr p = std::move(slots[idx]);
@@ -205,7 +250,8 @@ struct WL {
         S = &st;
         self = this;
         st.throwing = !strcmp(gsim::param("mode", "std"), "throw");
-        st.cb_mode = gsim::knob("callback", 0, 4);
+        st.cb_mode = gsim::knob("callback", 0, 5);
+        st.parked = new std::vector<Ptr>();
         st.dtor_mode = gsim::knob("dtor", 0, 3);
         if (st.throwing && st.cb_mode == 0) st.cb_mode = 1;
         if (!gsim::prog_loaded()) {
@@ -239,6 +285,8 @@ struct WL {
             for (int t = 0; t < n; t++) gsim::join(tids[t]);
         }
         gsim::faults_off();
+        while (unpark_one()) {
+        }
         // quiescent: the container holds exactly the added objects that are still alive
         {
             size_t sz = dd->size();
@@ -266,6 +314,8 @@ struct WL {
             delete d;
         }
         dd = nullptr;
+        while (unpark_one()) {  // copies parked by callbacks the container's destructor made
+        }
         if (drop_first) {
             gsim::Oracle o;
             for (auto& kv : st.objs)
@@ -282,6 +332,7 @@ struct WL {
                     gsim::fail("leak", "an object was never destroyed (created %ld, destroyed %ld)",
                                st.created, st.destroyed);
         }
+        delete st.parked;
         self = nullptr;
         S = nullptr;
     }
